@@ -119,6 +119,33 @@ def ob_direct_finalization(run, oid):
         o.missing("FinalityTracker::mark_fast_finalized")
 
 
+DECIDED = {"Finalized", "ImplicitlyFinalized", "ImplicitlySkipped"}
+
+
+def decided_set_guard(prog, b, bb):
+    """the set of FinalizationStatus variants under which block bb is reached, read from a guard on `status.get(slot)`:
+    either `get(..).is_some_and(|s| matches!(s, A | B ..))` (the closure's decision table) or `matches!(get(..), Some(A | B ..))`.
+    None when no such guard dominates bb."""
+    from engine import paths
+    for a in G.guard_atoms(b, bb, prog):
+        if a[0] == "variant" and a[2] is True and K.mentions_call(a[1][0], "BTreeMap::get") and K.mentions_field(a[1][0], "status", "FinalityTracker"):
+            return set(a[1][1])
+        if a[0] == "bool" and a[2] is True and K.mentions_call(a[1][0], "is_some_and") and K.mentions_field(a[1][0], "status", "FinalityTracker"):
+            cl = [x for x in mir.walk(a[1][0]) if isinstance(x, tuple) and x and x[0] == "closure"]
+            cb = prog.bodies.get(cl[0][1]) if cl else None
+            if cb is None:
+                return None
+            yes = set()
+            for atoms, ret, blocks in paths.decision_table(cb, prog):
+                vs = [x for x in atoms if x[0] == "variant"]
+                if ret is None or not (ret[0] == "const" and ret[1] == "bool") or len(vs) != 1 or len(atoms) != 1:
+                    return None
+                if ret[2]:
+                    yes |= set(vs[0][1][1])
+            return yes
+    return None
+
+
 def ob_watermarks(run, oid):
     prog = run.program("lib")
     o = run.ob(oid, "highest_finalized_slot and first_unpruned_slot are written only by their owners, monotonically",
@@ -142,9 +169,9 @@ def ob_watermarks(run, oid):
                         o.check(ok, "%s|monotone|%s" % (fld, fshort(fn)), "highest_finalized_slot = max(slot, old)", sp, {"value": mir.show(t)})
                     else:
                         # written inside the loop guarded by "next slot is decided"
-                        g = [a for a in G.guard_atoms(b, bb, prog) if a[0] == "bool" and a[2] is True and K.mentions_call(a[1][0], "is_some_and")]
-                        o.check(bool(g), "%s|guarded|%s" % (fld, fshort(fn)), "first_unpruned_slot advances only while the next slot's status is decided", sp,
-                                {"guards": K.show_atoms(prog, b, bb)})
+                        decided = decided_set_guard(prog, b, bb)
+                        o.check(decided == DECIDED, "%s|guarded|%s" % (fld, fshort(fn)), "first_unpruned_slot advances exactly while the next slot's status is decided "
+                                "(Finalized | ImplicitlyFinalized | ImplicitlySkipped)", sp, {"decided_set_found": sorted(decided) if decided is not None else None, "guards": K.show_atoms(prog, b, bb)})
                         pv = b.provenance(t)
                         o.check(any(x.endswith("Slot::next") for x in pv["calls"]) and not any(x.endswith("highest_finalized_slot") for x in pv["calls"]) and
                                 ("alpenglow::consensus::pool::finality_tracker::FinalityTracker", "highest_finalized_slot") not in pv["fields"],
